@@ -1032,10 +1032,11 @@ def word_length_family(ctx, I):
                     ctx.hist("outcome", "vocab word over the receiver's limit: " + ("graph changed" if d and not exc else "refused" if exc else "violation only"))
                     if not noted:
                         noted = True
-                        ctx.note("FINDING %s (new, not in known_findings.json): %s.  Minimal input: table [b'tuple'] in force, "
+                        ctx.fail(WORDLEN_SIG, "%s.  Minimal input: table [b'tuple'] in force, "
                                  "setOutgoingVocabulary([b'list', b'x'*101]), send [2] -> receiver keeps [b'tuple'] and delivers (2,).  "
                                  "Cause: ReplaceVocabUnslicer.valueConstraint = ByteStringConstraint(100) (slicers/vocab.py) while "
-                                 "Banana.setOutgoingVocabulary accepts any word" % (WORDLEN_SIG, what[:600]))
+                                 "Banana.setOutgoingVocabulary accepts any word" % (what[:600],),
+                                 replay=dict(case=name, wordlen=n, initial=label, data=data.hex()[:4000]))
                 else:
                     ctx.hist("outcome", "vocab word of %s bytes: delivered" % ("<= 100" if n <= 100 else "> 100"))
                 # correspondence: the model's receiver (Violation handling included) on the real bytes delivers what was delivered
